@@ -145,7 +145,11 @@ def runQuery (cfg : Cfg) (ft : FTab) (q : String) : String :=
     match nat? t, nat? p with
     | some t, some p => match dist cfg t p with | none => "-" | some d => s!"{d}"
     | _, _ => "bad-query"
-  | ["t", cls, mode, an, s, t] =>
+  | ["t", cls0, mode, an, s, t] =>
+    -- `FS` / `FA` / `FI`: the trait is declared with a forward-reference string (the first assignment runs the
+    -- Python validator `BaseInstance.validate`, later ones `validate_trait_adapt`); `BI`: `BaseInstance(adapt=…)`,
+    -- always the Python validator.  Both validators are the model's `validateTrait`.
+    let cls := if cls0 == "BI" then "I" else if cls0.startsWith "F" then (cls0.drop 1).toString else cls0
     match nat? mode, nat? an, parseSrc s, nat? t with
     | some mode, some an, some (s, isN), some t =>
       let calls := validateCalls mode isN
